@@ -253,6 +253,12 @@ def c20_relations(res, rec, fs, tag=""):
             pos = cf > 0
             if np.any(pos):
                 rel("cf_db=20log10(cf)", np.asarray(res.cf_db)[pos], 20 * np.log10(cf[pos]))
+            if np.any(~pos):
+                rec.count("c20_zero_cf_bins", int(np.sum(~pos)))
+                zdb = np.asarray(res.cf_db)[~pos]
+                if not np.all(np.isneginf(zdb)):
+                    rec.violation("relation:cf_db=20log10(cf)",
+                                  f"{tag}cf = 0 but cf_db = {zdb[0]!r} (20*log10(0) is -inf)")
             rel("cf_deg=180/pi*cf_rad", res.cf_deg, np.asarray(res.cf_rad) * 180 / np.pi)
             rel("cf_rad=angle(Hxy)", res.cf_rad, np.angle(res.Hxy))
             rel("cf_rad_unwrapped", res.cf_rad_unwrapped, np.unwrap(np.asarray(res.cf_rad)))
